@@ -21,6 +21,11 @@ Modelled (Go source → Lean def):
   by fix C19-c) + `RenderObjectSetTemplateSpec`                                    → `renderGate`, `renderPackage`
 
 * internal/packages/internal/packageimport/oci.go `FromOCI` (read loop over abstract tar events) → `fromOCI`
+* internal/packages/internal/packagerender/celctx/cel.go `CelCtx.evaluate` (run-time result-type check +
+  `out.Value().(bool)`) → `celEvaluate`; internal/packages/internal/packagerender/objects.go `filterWithCEL`
+  for ONE expression at one of the three places package content can carry CEL
+  (`package-operator.run/condition`, `spec.filters.conditions[]`, `spec.filters.paths[]`) → `celPlace`;
+  the evaluated fragment of CEL (bool literal, field selection, `!`, `?:`) → `celEval`
 
 The model is of the FIXED tree (findings/C19-a, C19-b, C19-c, C19-e applied).  The pre-fix shapes of
 the defective spots are kept in the section `Legacy` so that the witnesses stay checkable.
@@ -484,6 +489,75 @@ def fromOCI : List TarNext → Nat → Outcome Nat
   | .entry true _ :: rest, n => fromOCI rest n
   | .entry false true :: rest, n => fromOCI rest (n + 1)
   | .entry false false :: _, _ => .err
+
+/-! ### CEL conditions (celctx.CelCtx.evaluate, packagerender.filterWithCEL) -/
+
+/-- The fragment of CEL the correspondence run generates: every template-context variable is
+declared `map(string, any)`, so a field selection has STATIC type dyn and any RUN-TIME type. -/
+inductive CelExpr where
+  | lit (b : Bool)
+  | get (path : List String)          -- config.a.b
+  | not (e : CelExpr)                 -- !(e)
+  | tern (c x y : CelExpr)            -- (c ? x : y)
+  deriving Repr, Inhabited
+
+/-- Field selection through JSON objects; a missing key or a selection from a non-object is an
+evaluation error (`none`). -/
+def celGet : JVal → List String → Option JVal
+  | v, [] => some v
+  | .obj kvs, k :: r =>
+    match lookup kvs k with
+    | some v => celGet v r
+    | none => none
+  | _, _ :: _ => none
+
+/-- Evaluation against the context (`none` = CEL evaluation error: no such key, no such overload). -/
+def celEval (ctx : JVal) : CelExpr → Option JVal
+  | .lit b => some (.bool b)
+  | .get p => celGet ctx p
+  | .not e =>
+    match celEval ctx e with
+    | some (.bool b) => some (.bool (!b))
+    | _ => none
+  | .tern c x y =>
+    match celEval ctx c with
+    | some (.bool true) => celEval ctx x
+    | some (.bool false) => celEval ctx y
+    | _ => none
+
+/-- `CelCtx.evaluate` after compilation: `v` = what the program evaluated to.
+The assertion `out.Value().(bool)` is written as a panicking operation; the run-time type check
+in front of it is what makes it unreachable (`no_panic_celEvaluate`). -/
+def celEvaluate (v : Option JVal) : Outcome Bool :=
+  match v with
+  -- programEval returned an error: ErrProgramEvaluation
+  | none => .err
+  | some v =>
+    -- if !reflect.DeepEqual(out.Type(), cel.BoolType) { return false, ErrInvalidReturnType }
+    let isBool := match v with | .bool _ => true | _ => false
+    if !isBool then .err
+    else
+      -- return out.Value().(bool), nil
+      match v with
+      | .bool b => .ok b
+      | _ => .panic
+
+/-- One expression at one place, in a package of two objects in one file (the first one carries
+the annotation): number of objects rendered. `ann`: the object is kept iff true; `cond`: the named
+condition is evaluated by `celctx.New` and referenced by the annotation; `path`: false excludes the
+whole file. -/
+def celPlace (place : String) (ctx : JVal) (e : CelExpr) : Outcome Nat :=
+  (celEvaluate (celEval ctx e)).map fun b => if b then 2 else if place == "path" then 0 else 1
+
+/-- NOT the code: `CelCtx.evaluate` with the result-type check done on the STATIC output type of
+the checked AST instead (`staticOk` = the static type is bool or dyn).  Kept to state why the
+run-time check is needed (`Props.C19.static_result_check_insufficient`). -/
+def celEvaluateStaticCheck (staticOk : Bool) (v : Option JVal) : Outcome Bool :=
+  if !staticOk then .err
+  else match v with
+    | none => .err
+    | some (.bool b) => .ok b
+    | some _ => .panic
 
 /-! ### Legacy: the defective spots as they were BEFORE findings/C19-{a,b,c}/fix.diff -/
 namespace Legacy
